@@ -21,7 +21,9 @@ GENERATED = ["WsGen.v"]
 RULE = ("streams = valid frame sequences (text/binary/fragmented/control interleaved/close/compressed with the toy "
         "codec, lengths around 125/126/127/65535/65536) + every violation class injected at every frame position "
         "+ random bytes; each stream x (one-shot, every single cut [sampled above 48 bytes], sampled double cuts, "
-        "byte-at-a-time, random cuts) x (compress, decode_text, max_msg_size in {0,1,small,exact fit +-1,4MiB}). "
+        "byte-at-a-time, random cuts) x (compress, decode_text, max_msg_size in {0,1,small,exact fit +-1,4MiB}); "
+        "plus the application's view through queue.read() for consumers that read eagerly / lag by 1-2 messages / read only "
+        "after the last network read. "
         "Non-trivial = at least one message was delivered; distinct by hash of (config, stream, segmentation, observable).")
 TRUSTED = [
     "translator/gen_ws.py (opcode/close-code tables, every guarded WebSocketError test of _feed_data/_handle_frame as a "
@@ -434,6 +436,49 @@ def run_impl(cfg, segs):
     return per, allev, status, stale
 
 
+class _WouldBlock(Exception):
+    pass
+
+
+def qread(q):
+    """`await queue.read()` when it does not have to wait (buffer non-empty or eof/exception set): returns the
+    message or raises what read() raises."""
+    co = q.read()
+    try:
+        co.send(None)
+    except StopIteration as e:
+        return e.value
+    co.close()
+    q._waiter = None
+    raise _WouldBlock()
+
+
+def run_consumer(cfg, segs, lag):
+    """The application's view: messages are taken with queue.read().  lag=None: the application only reads after the
+    last network read; lag=k: after every network read it reads until k messages are left unread (k=0: eager).
+    At the end it reads until read() raises or would block.  -> (messages read, 'pending' | error class)"""
+    mx, cmp_, dt = cfg
+    im = Impl(mx, cmp_, dt)
+    got = []
+    status = "pending"
+
+    def take(leave):
+        nonlocal status
+        while status == "pending" and (len(im.q._buffer) > leave or (leave == 0 and im.q._eof)):
+            try:
+                got.append(ev_of(qread(im.q)))
+            except _WouldBlock:
+                break
+            except Exception as e:  # noqa
+                status = err_of(e)
+    for s_ in segs:
+        im.r.feed_data(s_)
+        if lag is not None:
+            take(lag)
+    take(0)
+    return got, status
+
+
 # ------------------------------------------------------------------------------------------------
 # segmentations
 
@@ -620,9 +665,12 @@ def check_case(ctx, exe, label, cfg, stream, seglist, spec_rfc, answers):
     sev, sst, scls = spec_rfc
     ran = 0
     info = None
+    first_impl = None
     for segs, ans in zip(seglist, answers):
         model = parse_run(ans)
         per, allev, status, stale = run_impl(cfg, segs)
+        if first_impl is None:
+            first_impl = (allev, status)
         ran += 1
         canon = (cfg, stream, tuple(len(s) for s in segs), tuple(allev), status)
         ctx.case(canon, nontrivial=bool(allev))
@@ -651,6 +699,26 @@ def check_case(ctx, exe, label, cfg, stream, seglist, spec_rfc, answers):
             ctx.violation(dict(case, kind="stale-fragments", feed=stale),
                           "after a frame was completed _payload_fragments still holds entries (they are never released and count "
                           "towards the fragment cap that pauses the transport)")
+    # oracle 4: the application's view through queue.read() — everything decoded before the first violation, then the
+    # error — does not depend on when the application reads (eager, lagging by k, only after the last network read)
+    eager_obs = None
+    for segs in (seglist[0], seglist[-1]) if len(seglist) > 1 else (seglist[0],):
+        for lag in (0, None, 1, 2):
+            obs = run_consumer(cfg, segs, lag)
+            ran += 1
+            ctx.case(("consumer", cfg, stream, tuple(len(s) for s in segs), lag, tuple(obs[0]), obs[1]), nontrivial=bool(obs[0]))
+            if eager_obs is None:
+                eager_obs = obs
+            if obs != eager_obs:
+                ctx.violation({"suite": "consumer", "label": label, "cfg": list(cfg), "stream": stream.hex(),
+                               "segs": [len(s) for s in segs], "lag": lag, "kind": "consumer-timing"},
+                              f"what the application reads depends on when it reads: eager consumer of the first segmentation gets "
+                              f"{eager_obs[0]} then {eager_obs[1]}; consumer with lag={lag} on cuts {[len(s) for s in segs][:8]} gets {obs[0]} then {obs[1]}")
+                break
+    if eager_obs is not None and first_impl is not None and eager_obs != first_impl:
+        ctx.violation({"suite": "consumer", "label": label, "cfg": list(cfg), "stream": stream.hex(),
+                       "segs": [len(s) for s in seglist[0]], "lag": 0, "kind": "consumer-vs-queue"},
+                      f"queue.read() hands the application {eager_obs[0]} then {eager_obs[1]} but the reader put {first_impl[0]} then {first_impl[1]} on the queue")
     if sst != "pending":
         ctx.count("spec-class:" + str(scls))
     return ran
@@ -1007,6 +1075,18 @@ def replay(ctx, case):
         return r
     ok, exe = build_model()
     _LOOP = _LOOP or asyncio.new_event_loop()
+    if case.get("suite") == "consumer":
+        stream = bytes.fromhex(case["stream"])
+        cfg = tuple(case["cfg"])
+        segs = cut(stream, list(_acc(case["segs"]))[:-1]) if case.get("segs") else [stream]
+        with _Backend(ToyBackend):
+            per, allev, status, _ = run_impl(cfg, segs)
+            views = {str(lag): run_consumer(cfg, segs, lag) for lag in (0, 1, 2, None)}
+            views["eager, byte at a time"] = run_consumer(cfg, [stream[i:i + 1] for i in range(len(stream))], 0)
+        spec = parse_spec(fw.run_model(exe, [spec_line("rfc", cfg, stream)])[0])
+        bad = sorted(k for k, v in views.items() if v != (allev, status))
+        return {"put_on_queue_by_reader": [allev, status], "reference_rfc": list(spec), "application_reads (by lag)": views,
+                "violates": bool(bad), "why": [f"consumer with lag={k} does not get what the reader delivered" for k in bad]}
     if case.get("suite") == "reader":
         stream = bytes.fromhex(case["stream"])
         cfg = tuple(case["cfg"])
